@@ -44,13 +44,35 @@ def rand_text(rng, n=None):
     return "".join(out)
 
 
+def ref_text(rng):
+    h = rng.randbytes(rng.choice([32, 32, 32, 32, 31, 33, 16, 64, 20])).hex()
+    r = rng.random()
+    if r < 0.35:
+        return h
+    if r < 0.55:
+        return h.upper()
+    if r < 0.7:
+        return "".join(c.upper() if rng.random() < 0.5 else c for c in h)
+    if r < 0.78:
+        return h[:-1]                                   # odd number of digits
+    if r < 0.86:
+        return rng.choice([" ", "0x", "\n", ""]) + h + rng.choice(["", " ", "\n"])
+    if r < 0.93:
+        return rng.choice(["wss://relay.example.com", "wss://Relay.Example.COM/", "ws://127.0.0.1:6969", "wss://r.example/%7Euser"])
+    return "30023:" + h + ":" + rand_text(rng, 3)       # NIP-33 coordinate
+
+
 def rand_tags(rng, strings_only):
     tags = []
     for _ in range(rng.choice([0, 1, 2, 3])):
         t = [rng.choice(["e", "p", "t", "d", "x", "client", rand_text(rng, 2)])]
         for _ in range(rng.choice([0, 1, 1, 2, 3])):
             r = rng.random()
-            if strings_only or r < 0.7:
+            if r < 0.14:
+                # what most real tags carry: references to events / pubkeys, relay urls — hex in every spelling a signer may use
+                # (the id is the hash of the text as written: any normalisation on the way alters the event)
+                t.append(ref_text(rng))
+            elif strings_only or r < 0.7:
                 t.append(rand_text(rng, rng.randint(0, 6)))
             elif r < 0.78:
                 t.append(rng.choice([0, 1, -5, 2 ** 31, 2 ** 53]))
@@ -175,6 +197,8 @@ def rand_value(rng, depth=0):
     r = rng.random()
     if r < 0.3:
         return rng.choice(INT_EDGES) if rng.random() < 0.7 else rng.randint(-2 ** 66, 2 ** 66)
+    if r < 0.36:
+        return ref_text(rng)
     if r < 0.55:
         n = rng.choice(LEN_EDGES[:10]) if rng.random() < 0.5 else rng.randint(0, 40)
         base = rand_text(rng, min(n, 12))
